@@ -10,6 +10,11 @@ from simkit.core import Check, Ctx, HarnessError, Violation
 P = "C02"
 
 
+def qgen_pick(tape, label):
+    from engines.qgen import EIGHTHS
+    return EIGHTHS[tape.draw(len(EIGHTHS), label)]
+
+
 class C02(Check):
     property_id = "C02"
     engine = "E4 scripted PRNG + branch-tree exploration + QRef reference interpreter"
@@ -40,7 +45,7 @@ class C02(Check):
                        "feat:repeated-key", "feat:qudit-measure", "feat:classical-control", "feat:sympy-condition",
                        "feat:bitmask-condition", "feat:indexed-condition", "feat:pauli-measure", "feat:reset",
                        "sim:sv", "sim:dm", "sim:clifford", "sim:stab-sampler", "entry:run", "entry:simulate",
-                       "entry:steps", "entry:sample", "entry:run_sweep", "init:vector", "init:int", "order:permuted"]
+                       "entry:steps", "entry:sample", "entry:run_sweep", "entry:sweep-from-state", "init:vector", "init:int", "order:permuted"]
 
     def setup(self) -> None:
         from simkit import repoenv
@@ -54,6 +59,8 @@ class C02(Check):
         cirq = self.cirq
         qgen, qdrive = self.qgen, self.qdrive
         ctx.workload = "born-rule"
+        if tape.chance(1, 12, "sweep-from-state?"):
+            return self._sweep_from_state(tape, ctx)
         clifford = tape.chance(1, 5, "clifford-circuit?")
         g = qgen.Gen(tape, clifford_only=clifford, allow_channels=False, allow_qudits=not clifford,
                      leaf_bits_cap=8.0, max_ops=11)
@@ -149,6 +156,124 @@ class C02(Check):
         ctx.sample = {"circuit": diagram if len(diagram) <= 24 and max(map(len, diagram), default=0) < 200
                       else [repr(op)[:120] for op in circuit.all_operations()][:20], "simulator": cfg.describe(), "entry": entry,
                       "repetitions": reps, "leaves_explored": n_leaves, "features": sorted(g.features)}
+
+    # -- entry point: simulate_sweep started from a SimulationState that already holds records -----------
+    def _sweep_from_state(self, tape, ctx: Ctx) -> None:
+        """`simulate_sweep(program, params, initial_state=<SimulationState>)` is documented.  The state may
+        already hold measurement records (it is the state of an earlier, measured segment).  Every sweep
+        point must then behave as an independent continuation of that segment: its measurements, the
+        operations it conditions on earlier records, and its final state depend on the segment and on
+        its own draws only."""
+        import sympy
+        cirq = self.cirq
+        sp = __import__("engines.scripted_prng", fromlist=["x"])
+        qref = __import__("engines.qref", fromlist=["x"])
+        ctx.probe("entry:sweep-from-state")
+        n = 1 + tape.draw(2, "n-qubits")
+        qs = cirq.LineQubit.range(n)
+        kind = ["sv", "dm"][tape.draw(2, "sim-kind")]
+        dtype = np.complex128 if tape.chance(1, 2, "dtype128?") else np.complex64
+        ctx.probe("sim:" + kind)
+        angle = lambda lab: math.pi / 8 * qgen_pick(tape, lab)  # noqa: E731
+        # segment 1: rotate, measure key "a" (and maybe "b")
+        seg1 = [cirq.ry(angle("angle")).on(q) for q in qs]
+        seg1.append(cirq.measure(qs[0], key="a"))
+        if n > 1 and tape.chance(1, 2, "seg1-b?"):
+            seg1.append(cirq.measure(qs[1], key="b"))
+        # the swept program: parameterised rotation, measure "a" again, then act on an *indexed* record
+        t = sympy.Symbol("t")
+        idx = [1, -1, 0, -2][tape.draw(4, "cond-index")]
+        target = qs[-1]
+        program = cirq.Circuit(
+            (cirq.X ** t).on(qs[0]),
+            cirq.ry(angle("angle")).on(qs[0]),
+            cirq.measure(qs[0], key="a"),
+            cirq.X(target).with_classical_controls(cirq.KeyCondition(cirq.MeasurementKey("a"), index=idx)),
+        )
+        if tape.chance(1, 2, "final-measure?"):
+            program.append(cirq.measure(target, key="c"))
+        values = [[1, 0], [0.5, 1], [0, 1, 0.5]][tape.draw(3, "sweep-values")]
+        sweep = cirq.Points("t", values)
+        tol = 5e-5 if dtype == np.complex64 else 1e-6
+
+        def leaf(prng):
+            if kind == "sv":
+                st = cirq.StateVectorSimulationState(qubits=qs, initial_state=0, prng=prng, dtype=dtype)
+                sim = cirq.Simulator(seed=prng, dtype=dtype)
+            else:
+                st = cirq.DensityMatrixSimulationState(qubits=qs, initial_state=0, prng=prng, dtype=dtype)
+                sim = cirq.DensityMatrixSimulator(seed=prng, dtype=dtype)
+            for op in seg1:
+                cirq.act_on(op, st)
+            seg_records = tuple(sorted((str(k), tuple(tuple(int(x) for x in r) for r in v))
+                                       for k, v in st.classical_data.records.items()))
+            results = sim.simulate_sweep(program, params=sweep, qubit_order=qs, initial_state=st)
+            out = []
+            for r in results:
+                meas = tuple(sorted((k, tuple(int(x) for x in v)) for k, v in r.measurements.items()))
+                if kind == "sv":
+                    v = np.asarray(r.final_state_vector, dtype=np.complex128)
+                    rho = np.outer(v, v.conj())
+                else:
+                    rho = np.asarray(r.final_density_matrix, dtype=np.complex128)
+                out.append((meas, rho))
+            return seg_records, out
+
+        try:
+            leaves = sp.explore(leaf, 400)
+        except sp.TreeTooLarge:
+            ctx.probe("tree-too-large")
+            return
+        # reference: segment 1, then each sweep point independently from each segment branch
+        ref = qref.QRef(qs)
+        seg_branches = ref.run(cirq.Circuit(seg1), 0)
+        expect = {}     # (seg_records, point index, meas-last-instance) -> [prob, weighted rho]
+        for b in seg_branches:
+            seg_key = tuple(sorted((k, v) for k, v in b.records.items()))
+            for i, resolver in enumerate(cirq.to_resolvers(sweep)):
+                resolved = cirq.resolve_parameters(program, resolver)
+                branches = [b.fork(b.prob, b._rho, b.psi)]
+                for moment in resolved:
+                    for op in moment.operations:
+                        branches = ref.step(branches, op)
+                for fb in branches:
+                    k = (seg_key, i, tuple(sorted((kk, vv[-1]) for kk, vv in fb.records.items())))
+                    e = expect.setdefault(k, [0.0, None])
+                    e[0] += fb.prob
+                    e[1] = fb.prob * fb.rho if e[1] is None else e[1] + fb.prob * fb.rho
+        got = {}
+        total = 0.0
+        for w, (seg_records, out), _trace in leaves:
+            total += w
+            for i, (meas, rho) in enumerate(out):
+                g = got.setdefault((seg_records, i, meas), [0.0, None])
+                g[0] += w
+                g[1] = w * rho if g[1] is None else g[1] + w * rho
+        desc = f"[{kind}/{np.dtype(dtype).name} simulate_sweep from a SimulationState holding records]"
+        if abs(total - 1) > tol * 8:
+            raise Violation(f"{P}-DIST", f"{desc} leaf weights sum to {total}")
+        nlv = len(leaves)
+        for k in sorted(set(got) | set(expect), key=repr):
+            g = got.get(k, [0.0, None])
+            e = expect.get(k, [0.0, None])
+            if abs(g[0] - e[0]) > tol * max(4, math.sqrt(nlv)):
+                raise Violation(f"{P}-DIST",
+                                f"{desc} sweep point {k[1]} (t={values[k[1]]}): after segment records {dict(k[0])} the "
+                                f"measurements {dict(k[2])} have probability {g[0]:.6f} under the simulator but "
+                                f"{e[0]:.6f} for an independent continuation of the segment\nsegment: {cirq.Circuit(seg1)}\n"
+                                f"program:\n{program}")
+            if g[1] is not None and e[1] is not None and float(np.max(np.abs(g[1] - e[1]))) > tol * max(4, math.sqrt(nlv)):
+                raise Violation(f"{P}-STATE",
+                                f"{desc} sweep point {k[1]} (t={values[k[1]]}): final state differs from an independent "
+                                f"continuation of the segment (records {dict(k[0])}, measurements {dict(k[2])})\n"
+                                f"segment: {cirq.Circuit(seg1)}\nprogram:\n{program}")
+        ctx.decide("case", "sweep-from-state", repr(program), repr(seg1), kind, np.dtype(dtype).name, values, nlv)
+        ctx.nontrivial = nlv >= 2
+        ctx.steps += nlv
+        ctx.probe("leaves", nlv)
+        ctx.state(("sweep-from-state", kind, idx, len(values)))
+        ctx.sample = {"entry": "simulate_sweep(initial_state=SimulationState with records)", "segment": [str(o) for o in seg1],
+                      "program": str(program).splitlines(), "sweep_t": values, "simulator": kind, "leaves_explored": nlv}
 
     @staticmethod
     def _is_terminal_path(cirq, circuit) -> bool:
